@@ -365,6 +365,14 @@ class Fn:
                 raise Unsupported("element index types")
             v = self.fresh()
             return b + bi + bj + [(v, "np_get2 %s %s %s" % (c, ci, cj))], v, ("F" if t == "arr2" else "int")
+        if t == "arr2" and isinstance(sl, ast.Tuple) and len(sl.elts) == 2 and isinstance(sl.elts[1], ast.Slice) \
+                and sl.elts[1].lower is None and sl.elts[1].upper is None and sl.elts[1].step is None \
+                and not isinstance(sl.elts[0], ast.Slice):
+            bi, ci, ti = self.expr(sl.elts[0], env)
+            if ti == ("list", "int"):
+                # a[rows, :] with a list of row indices: the selected rows, in the order of the list
+                v = self.fresh()
+                return b + bi + [(v, "np_take_rows %s %s" % (c, ci))], v, "arr2"
         if t == "arr2" and not isinstance(sl, (ast.Tuple, ast.Slice)):
             # a[i]: row i of a 2-D array
             bi, ci, ti = self.expr(sl, env)
@@ -518,6 +526,21 @@ class Fn:
             if t == "int":
                 v = self.fresh()
                 return b + [(v, "np_full1 f0 %s" % c)], v, ("list", "F")
+        if isinstance(e.func, ast.Attribute) and e.func.attr == "shallow_copy" and not e.args and not e.keywords:
+            b, c, t = self.expr(e.func.value, env)
+            if isinstance(t, tuple) and t[0] == "record":
+                return b, c, t      # a (shallow) copy of an immutable record value is the value; field stores below are functional updates
+        if fn == "np.cov" and "np_cov_of_rows" in self.externs and len(e.args) == 1 and len(e.keywords) == 1 and e.keywords[0].arg == "bias" \
+                and isinstance(e.args[0], ast.Call) and ast.unparse(e.args[0].func) == "np.transpose" and len(e.args[0].args) == 1:
+            b1, c1, t1 = self.expr(e.args[0].args[0], env)
+            b2, c2, t2 = self.expr(e.keywords[0].value, env)
+            if t1 == "arr2" and t2 == "bool":
+                return b1 + b2, "(np_cov_of_rows %s %s)" % (c1, c2), "MAT"
+        if fn == "np.mean" and "np_mean_rows" in self.externs and len(e.args) == 1 and len(e.keywords) == 1 and e.keywords[0].arg == "axis" \
+                and ast.unparse(e.keywords[0].value) == "0":
+            b1, c1, t1 = self.expr(e.args[0], env)
+            if t1 == "arr2":
+                return b1, "(np_mean_rows %s)" % c1, ("list", "F")
         if fn == "np.copy" and len(e.args) == 1 and not e.keywords:
             b, c, t = self.expr(e.args[0], env)
             if t in ("arr2", ("list", "F")):
@@ -616,6 +639,8 @@ class Fn:
                     elif isinstance(t, ast.Tuple) and all(isinstance(x, ast.Name) for x in t.elts):
                         for x in t.elts:
                             add(x.id)
+                    elif isinstance(t, ast.Attribute) and isinstance(t.value, ast.Name):
+                        add(t.value.id)
                     else:
                         raise Unsupported("assignment target %s" % ast.unparse(t))
             elif isinstance(s, ast.AugAssign) and isinstance(s.target, ast.Name):
@@ -756,6 +781,15 @@ class Fn:
                 env2[tgt.elts[1].id] = "int"
                 return self.wrap(b, "let %s := (a_rows %s) in\n  let %s := (a_cols %s) in\n  %s" % (
                     cname(tgt.elts[0].id), c, cname(tgt.elts[1].id), c, nxt(env2)))
+            if isinstance(tgt, ast.Attribute) and isinstance(tgt.value, ast.Name) and isinstance(env.get(tgt.value.id), tuple) \
+                    and env[tgt.value.id][0] == "record" and tgt.attr in env[tgt.value.id][2]:
+                # x.f = v on a local record value: functional update (the record is referenced through this name only)
+                a = tgt.value.id
+                rt_ = env[a]
+                bv, cv, tv = self.expr(s.value, env)
+                if repr(tv) != repr(rt_[2][tgt.attr]):
+                    raise Unsupported("field store type %s into %s" % (tv, rt_[2][tgt.attr]))
+                return self.wrap(bv, "let %s := (set_%s%s %s %s) in\n  %s" % (cname(a), rt_[3], tgt.attr, cname(a), cv, nxt(env)))
             if isinstance(tgt, ast.Subscript) and isinstance(tgt.value, ast.Name) and tgt.value.id in env:
                 a = tgt.value.id
                 ta = env[a]
@@ -1089,8 +1123,13 @@ TARGETS = {
                           "gm_", "(gl_model F)"),
                          ("_reconstruct_optimized_matrix", "compressed_result"): ("list", "F"),
                          ("_reconstruct_optimized_matrix", "return"): "arr2"}),
-    "cluster_maintenance": ("cluster_maintenance.py", ["_find_point_donor", "_move_random_points"],
-                            {("_find_point_donor", "model"): ("record", "rp_model",
+    "cluster_maintenance": ("cluster_maintenance.py", ["_find_point_donor", "_move_random_points", "update_cluster_member_data_statistics"],
+                            {("update_cluster_member_data_statistics", "cluster"): ("record", "st_cluster", {"size": "int", "member_points": ("list", "int"), "empirical_covariance": "MAT",
+                                                           "stacked_data_mean": ("list", "F")}, "sc_", "(st_cluster F M)"),
+                             ("update_cluster_member_data_statistics", "training_data"): "arr2",
+                             ("update_cluster_member_data_statistics", "return"): ("record", "st_cluster", {"size": "int", "member_points": ("list", "int"), "empirical_covariance": "MAT",
+                                                           "stacked_data_mean": ("list", "F")}, "sc_", "(st_cluster F M)"),
+                             ("_find_point_donor", "model"): ("record", "rp_model",
                              {"arguments": ("record", "rp_args", {"min_cluster_size": "int"}, "ra_", "rp_args"),
                               "clusters": ("list", ("record", "rp_cluster", {"size": "int", "member_points": ("list", "int")}, "rc_", "rp_cluster")),
                               "point_labels": ("list", "int")}, "rm_", "rp_model"),
@@ -1153,8 +1192,12 @@ KERNEL_MODULES = {
         "externs": {"matrix_compression.reinflate_matrix": ([("list", "F")], "arr2", "reinflate_matrix", False)}},
     "cluster_maintenance": {
         "imports": "",
-        "vars": "  Variable random_sample_range : Z -> Z -> list Z.   (* random.sample(range(n), k): the draw (uninterpreted) *)\n",
-        "externs": {"random_sample_range": ([], None, "random_sample_range", False)}},
+        "vars": ("  Variable random_sample_range : Z -> Z -> list Z.   (* random.sample(range(n), k): the draw (uninterpreted) *)\n"
+                 "  Variable M : Type.                            (* dense 2-D float64 matrices (opaque) *)\n"
+                 "  Variable np_cov_of_rows : arr2 F -> bool -> M.  (* np.cov(np.transpose(X), bias=b): covariance of the rows of X as observations *)\n"
+                 "  Variable np_mean_rows : arr2 F -> list F.     (* np.mean(X, axis=0) *)\n"),
+        "externs": {"random_sample_range": ([], None, "random_sample_range", False),
+                    "np_cov_of_rows": ([], None, "np_cov_of_rows", False), "np_mean_rows": ([], None, "np_mean_rows", False)}},
     "cluster_metrics": {
         "imports": "",
         "vars": ("  Variable M : Type.                            (* 2-D float64 matrices (opaque) *)\n"
